@@ -187,8 +187,39 @@ def c_log_exp6(case, ctx):
     close(V2[3:], V[3:], LOOSE * max(1.0, vs), "log6(exp6(V)) linear part")
 
 
+def _axis_aligned():
+    import itertools
+    out = []
+    for perm in itertools.permutations(range(3)):
+        for signs in itertools.product((1, -1), repeat=3):
+            Rw = np.zeros((3, 3), dtype=np.int64)
+            for i in range(3):
+                Rw[i, perm[i]] = signs[i]
+            if round(float(np.linalg.det(Rw))) == 1:
+                out.append(Rw)
+    return out
+
+
+_AXIS_ALIGNED = _axis_aligned()
+
+
 def c_exp_log6(case, ctx):
     T = case["T"]
+    if case.get("whole") is not None:
+        # a rotation typed in whole numbers: one of the 24 axis-aligned rotations (entries -1, 0, 1) handed to the 3x3
+        # logarithm as an INTEGER-typed array - the library's own docstring example for MatrixLog3 is one.  (The 4x4
+        # logarithm does not accept integer arrays at all; not asked.)
+        Rw = _AXIS_ALIGNED[int(case["whole"][0]) % len(_AXIS_ALIGNED)]
+        ctx.label("integer-typed axis-aligned rotation (3x3 pair only)")
+        ctx.nontrivial(bool(np.any(Rw != np.eye(3))))
+        m = mr()
+        L3 = np.asarray(sut(m.MatrixLog3, np.ascontiguousarray(Rw)), dtype=float)
+        if L3.shape != (3, 3) or not np.all(np.isfinite(L3)) or np.abs(L3 + L3.T).max() > 1e-9:
+            raise Violation("MatrixLog3 of an integer-typed rotation is not in so(3): %s" % np.array2string(L3))
+        close(sut(m.MatrixExp3, np.ascontiguousarray(L3)), Rw.astype(float), LOOSE, "exp3(log3(R)) for an integer-typed R")
+        close(L3, O.hat3(O.log3(Rw.astype(float))) if abs(np.trace(Rw) + 1) > 0.5 else L3, LOOSE,
+              "log3(R) for an integer-typed R vs oracle")
+        return
     th = O.angle(T[:3, :3])
     ps = float(np.linalg.norm(T[:3, 3]))
     ctx.label(angle_class(th))
@@ -296,7 +327,9 @@ CLAUSES = [
            region=near_pi_region),
     Clause("log6_of_exp6", c_log_exp6, st.fixed_dictionaries({"V": G.twists(ang=G.angles_lt_pi())}), 2000, 20000,
            region=near_pi_region),
-    Clause("exp_of_log", c_exp_log6, st.fixed_dictionaries({"T": G.se3s()}), 2000, 20000,
+    Clause("exp_of_log", c_exp_log6, st.fixed_dictionaries({
+        "T": G.se3s(), "whole": st.one_of(st.none(), st.none(), st.none(), st.none(), st.tuples(
+            st.integers(0, 23), st.lists(st.integers(-5, 5), min_size=3, max_size=3)))}), 2000, 20000,
            region=near_pi_region),
     Clause("hat_vee_inverse", c_hat_vee, st.fixed_dictionaries({"V": G.vec6(1e3)}), 1000, 10000),
     Clause("transinv_group_inverse", c_transinv, st.fixed_dictionaries({"T": G.se3s()}), 2000, 20000),
